@@ -19,6 +19,7 @@ UNIT_MAP = {
     'error_trace': ['error_trace'],
     'scan:error_site_address': ['error_trace'],
     'card_index': ['error_trace'],
+    'card_home': ['error_trace'],
     'imports': ['name_resolution'],
     'modules': ['name_resolution'],
     'resolve': ['name_resolution'],
